@@ -35,8 +35,10 @@ class Ids:
         return v
 
 
-def w(ids, conn, src, dst, rep=1, nxt=None, rec=None, noh=False, dialed=None, trailer=False):
+def w(ids, conn, src, dst, rep=1, nxt=None, rec=None, noh=False, dialed=None, trailer=False, big=0):
     e = dict(id=ids.take(rep), src=src, dst=dst, b='p%d' % (ids.n,), m='/verif.Svc/Unary')
+    if big:          # a body of `big` bytes
+        e['b'] = '@%d:%d' % (big, ids.n + 1)
     if trailer:      # a final envelope: status + trailer, no body
         del e['b']
         e['st'] = dict(code=0, msg='OK')
@@ -168,13 +170,14 @@ def c16_pairorder(rng, count):
         ids = Ids()
         steps = [attach('c1', 1), attach('c2', 2), attach('c3', 3), attach('s1', 4), fault('stuck', 4)]
         left = 12
+        big = 600 * 1024 if k % 4 == 3 else 0        # a few large messages: well below 16 envelopes, several MiB in all
         while left > 0:
             rep = min(left, rng.randint(1, 4))
             snd = rng.randint(1, 3)
-            steps.append(w(ids, snd, 'c%d' % snd, 's1', rep=rep))
+            steps.append(w(ids, snd, 'c%d' % snd, 's1', rep=rep, big=big))
             left -= rep
         steps += [Q, fault('unstick', 4), Q]
-        out.append(scen('C16', 'pair-order stuck-then-drain #%d' % k, steps))
+        out.append(scen('C16', 'pair-order stuck-then-drain%s #%d' % (' (600 KiB bodies)' if big else '', k), steps))
     return out
 
 
